@@ -150,6 +150,15 @@ def track_block(body, env, tracked, on_eval=None, hook=None):
                             env[nm] = ev(b, env, hook)
                         except Unknown:
                             env[nm] = Opaque()
+        elif isinstance(st, ast.AugAssign):
+            nm = unparse(st.target)
+            if nm in tracked:
+                try:
+                    cur = env[nm]
+                    val = ev(st.value, env, hook)
+                    env[nm] = _BIN[type(st.op)](cur, val)
+                except (Unknown, KeyError, TypeError):
+                    env[nm] = Opaque()
         elif isinstance(st, ast.Return):
             if '<return>' in tracked:
                 try:
